@@ -19,6 +19,7 @@ import (
 	"strings"
 	"sync"
 	"sync/atomic"
+	"syscall"
 	"time"
 
 	_ "verif/props/all"
@@ -93,6 +94,10 @@ func worker() {
 		w.Flush()
 		r := &core.ScnResult{Index: i}
 		t0 := time.Now()
+		vsched.ExploreDeadline = t0.Add(time.Duration(envInt("VERIF_SCENARIO_CAP_S", map[string]int{"quick": 120, "thorough": 1200}[tier])) * time.Second)
+		if deadline.Before(vsched.ExploreDeadline) {
+			vsched.ExploreDeadline = deadline
+		}
 		p.Run(tier, i, r)
 		if d := time.Since(t0); os.Getenv("VERIF_SLOW") != "" && d > 500*time.Millisecond {
 			fmt.Fprintf(os.Stderr, "SLOW scenario %d: %s\n", i, d)
@@ -248,6 +253,10 @@ func master() int {
 						a.Lock()
 						a.infra = append(a.infra, fmt.Sprintf("worker %d reported nothing for %d s while running scenario %d: killed (a thread is blocked outside the scheduler's control)", i, stallS, current.Load()))
 						a.Unlock()
+						// SIGQUIT first: the Go runtime prints every goroutine's stack (to the check's standard error), which names
+						// the operation that blocked outside the scheduler
+						c.Process.Signal(syscall.SIGQUIT)
+						time.Sleep(3 * time.Second)
 						c.Process.Kill()
 						return
 					case <-stopDog:
